@@ -597,14 +597,14 @@ def gen_fill_table(rng, system, style="c", ints=False, redundant=True):
 def run_cli(text, system, tmp, extra_args=()):
     import warnings
     from click.testing import CliRunner
-    from cij.cli.fill import main
+    from cij.cli.cij import main          # the documented command: `cij fill -s SYSTEM FILE` (the group, as installed)
     with warnings.catch_warnings():
         warnings.simplefilter("ignore")
         import pandas  # noqa: F401  (the command imports these lazily; import them outside the captured run)
         import cij.util.fill  # noqa: F401
     p = os.path.join(tmp, "fill_in.dat")
     with open(p, "w") as fp: fp.write(text)
-    args = (["-s", system] if system else []) + list(extra_args) + [p]
+    args = ["fill"] + (["-s", system] if system else []) + list(extra_args) + [p]
     r = CliRunner().invoke(main, args)
     if r.exit_code != 0:
         return "error:" + (type(r.exception).__name__ if r.exception is not None else str(r.exit_code))
